@@ -7,7 +7,7 @@ P = "C02"
 
 # ---- Allocation._split_allocation: recursion by contract, symbolic number of levels -------------------------------
 
-@contract(P, functions=[A + "_split_allocation"], params=[dict(k=k, fixed=f) for k in (0, 1, 2) for f in (False, True)])
+@contract(P, functions=[A + "_split_allocation"], params=[dict(k=k, fixed=f) for k in (0, 1, 2) for f in (False, True)], leak_ok=True)
 def split_allocation_recursive(S, k, fixed):
     """One execution of the real body; recursive calls are replaced by the function's own contract (measure: levels)."""
     set_eps(S)
